@@ -7,8 +7,8 @@ import Verif.Model.Validity
     claims_consistent, effective_consistent, default_only_widens, claims_ssh_unchecked
     x509_bounds, x509_issued_bounds, requested_exact, x5c_limit, x5c_notBefore_backdated,
     renew_same_duration, renew_duration_within_second, acme_dates
-    ssh_bounds_refuted, ssh_bounds_partial, ssh_requested_exact, ssh_limit,
-    ssh_no_crash_refuted, ssh_no_crash_partial, ssh_renew_same_duration
+    ssh_bounds, ssh_requested_exact, ssh_limit, ssh_no_crash, ssh_renew_same_duration
+    historic (pre-fix code): ssh_bounds_unguarded_refuted (D6), ssh_no_crash_unguarded_refuted (D7)
 -/
 open Verif Verif.Validity
 
@@ -96,7 +96,7 @@ theorem default_only_widens (g : Full) (own : Claims) (d : Int)
   split <;> split <;> simp <;> omega
 
 /-- Nothing comparable is checked for the SSH durations: `Validate` passes with an SSH maximum below
-    the minimum and a negative default (which makes `sshDefaultDuration` abort, see `ssh_no_crash_partial`). -/
+    the minimum and a negative default (which makes `sshDefaultDuration` abort: hypothesis `hd` of `ssh_no_crash`). -/
 theorem claims_ssh_unchecked :
     ∃ c : Claimer, c.validate = true ∧ c.maxUser < c.minUser ∧ c.defUser < 0 :=
   ⟨⟨hardcoded, some { minUser := some day, maxUser := some (3600 * second), defUser := some (-3600 * second) }⟩,
@@ -384,5 +384,642 @@ theorem acme_dates (cl : Claimer) (clk now vnow bd rnb rna : Int) (leaf : Cert)
   · intro hr; rw [hl]; unfold acmeOrderDates; simp [hr]
 
 example : acmeOrderDates (63900000000 * second) day 0 0 = ⟨63899999940 * second, 63900086400 * second⟩ := by decide
+
+/-! ## SSH -/
+
+theorem castU64_bind {β : Type} (x : Int) (f : U64 → Out β) :
+    (castU64 x >>= f) = if x < 0 then .crash else f (BitVec.ofInt 64 x) := by
+  unfold castU64; split <;> rfl
+
+theorem safeU64_bind {β : Type} (x : Int) (r : Rej) (f : U64 → Out β) :
+    (safeU64 x r >>= f) = if x < 0 then .rej r else f (BitVec.ofInt 64 x) := by
+  unfold safeU64; split <;> rfl
+
+theorem castI64_bind {β : Type} (x : U64) (f : Int → Out β) :
+    (castI64 x >>= f) = if x.toNat ≥ 9223372036854775808 then .crash else f (x.toNat : Int) := by
+  unfold castI64; split <;> rfl
+
+theorem pure_bind' {α β : Type} (a : α) (f : α → Out β) : ((pure a : Out α) >>= f) = f a := rfl
+
+theorem toNat_ofInt_small (x : Int) (h0 : 0 ≤ x) (h1 : x < 18446744073709551616) :
+    ((BitVec.ofInt 64 x).toNat : Int) = x := by
+  rw [BitVec.toNat_ofInt]; omega
+
+theorem unixOf_trunc (t : Int) : unixOf (trunc t) = unixOf t := by
+  unfold unixOf trunc second; omega
+
+/-- closes the leaves of an unfolded if-chain in the "never aborts" lemmas -/
+macro "nocrash_finish" : tactic =>
+  `(tactic| ((repeat' split) <;> first | omega | (intro hh; cases hh; done) | (simp_all; done) | (simp_all; omega)))
+
+/-- below `MaxInt64 / 10⁹` seconds the 64-bit product `time.Duration(x) * time.Second` is the integer product -/
+theorem secsToDur_small (x : Int) (h0 : 0 ≤ x) (h1 : x ≤ 9223372036) : secsToDur x = x * 1000000000 := by
+  unfold secsToDur
+  rw [BitVec.toInt_eq_toNat_cond, BitVec.toNat_mul, BitVec.toNat_ofInt]
+  simp only [BitVec.toNat_ofNat]
+  omega
+
+/-! ### the validity validator -/
+
+theorem sshValidityValid_ok {cl : Claimer} {now bd : Int} {c : SshCert}
+    (h : sshValidityValid cl now bd c = .ok ()) :
+    c.va ≠ 0#64 ∧ 0 ≤ unixOf now ∧ ¬ c.vb < BitVec.ofInt 64 (unixOf now) ∧ ¬ c.vb < c.va ∧
+    (c.vb - c.va).toNat ≤ 9223372036 ∧
+    ∃ mn mx, cl.minMaxSSH c.ctype = some (mn, mx) ∧
+      ¬ secsToDur ((c.vb - c.va).toNat : Int) < mn ∧ ¬ secsToDur ((c.vb - c.va).toNat : Int) > wrap64 (mx + bd) := by
+  unfold sshValidityValid at h
+  simp only [castU64_bind, castI64_bind] at h
+  split at h
+  · cases h
+  rename_i h1
+  split at h
+  · cases h
+  rename_i h2
+  split at h
+  · cases h
+  rename_i h3
+  split at h
+  · cases h
+  rename_i h4
+  split at h
+  · split at h <;> cases h
+  rename_i mn mx hm
+  split at h
+  · cases h
+  rename_i hg
+  split at h
+  · cases h
+  rename_i h5
+  split at h
+  · cases h
+  rename_i h6
+  split at h
+  · cases h
+  rename_i h7
+  exact ⟨h1, by omega, h3, h4, by omega, mn, mx, hm, h6, h7⟩
+
+/-- **ssh_bounds** at the validator: accepted ⇒ the certificate does not end before it starts or
+    before the clock, and `(vb − va)` seconds lies in `[min, max + backdate]` **as integers**. -/
+theorem sshValidityValid_bounds {cl : Claimer} {now bd : Int} {c : SshCert} (mn mx : Int)
+    (hm : cl.minMaxSSH c.ctype = some (mn, mx))
+    (hmx : 0 ≤ mx) (hmx2 : mx ≤ maxI64) (hbd : 0 ≤ bd) (hbd2 : bd ≤ maxI64)
+    (hnow : unixOf now < 9223372036854775808)
+    (h : sshValidityValid cl now bd c = .ok ()) :
+    c.va.toNat ≤ c.vb.toNat ∧ unixOf now ≤ c.vb.toNat ∧
+    mn ≤ ((c.vb.toNat : Int) - c.va.toNat) * 1000000000 ∧
+    ((c.vb.toNat : Int) - c.va.toNat) * 1000000000 ≤ mx + bd := by
+  obtain ⟨h1, h2, h3, h4, hsmall, mn', mx', hm', h6, h7⟩ := sshValidityValid_ok h
+  rw [hm] at hm'
+  cases hm'
+  rw [secsToDur_small _ (by omega) (by omega)] at h6 h7
+  rw [BitVec.lt_def] at h3 h4
+  rw [BitVec.toNat_ofInt] at h3
+  rw [BitVec.toNat_sub] at h6 h7 hsmall
+  have := c.va.isLt
+  have := c.vb.isLt
+  unfold wrap64 maxI64 at *
+  refine ⟨by omega, by omega, by omega, by omega⟩
+
+/-! ### request options, token modifiers, default / limit modifiers -/
+
+/-- what the request options resolve to (`cast.SafeUint64(x.RelativeTime(now).Unix())`), else `dflt` -/
+def resolve (now : Int) (x : TD) (dflt : U64) : U64 :=
+  if x.isZero then dflt else BitVec.ofInt 64 (unixOf (relativeTime now x))
+
+theorem modifyValidity_ok {now : Int} {o : SshOpts} {c c1 : SshCert} (h : modifyValidity now o c = .ok c1) :
+    c1 = ⟨resolve now o.va c.va, resolve now o.vb c.vb, c.ctype⟩ ∧
+    (o.va.isZero = false → 0 ≤ unixOf (relativeTime now o.va)) ∧
+    (o.vb.isZero = false → 0 ≤ unixOf (relativeTime now o.vb)) := by
+  unfold modifyValidity tdUnix at h
+  unfold resolve
+  cases ha : o.va.isZero <;> cases hb : o.vb.isZero <;>
+    simp only [ha, hb, Bool.not_true, Bool.not_false, safeU64_bind, pure_bind', if_true, if_false,
+      Bool.false_eq_true] at h ⊢
+  all_goals (repeat' (split at h)) <;> first | cases h | skip
+  all_goals (refine ⟨rfl, ?_, ?_⟩ <;> intro hh <;> first | omega | cases hh)
+
+/-- `ModifyValidity` never aborts, whatever instants are requested (since fix fffcedb) -/
+theorem modifyValidity_nocrash (now : Int) (o : SshOpts) (c : SshCert) : modifyValidity now o c ≠ .crash := by
+  unfold modifyValidity tdUnix
+  cases h1 : o.va.isZero <;> cases h2 : o.vb.isZero <;>
+    simp only [Bool.not_true, Bool.not_false, safeU64_bind, pure_bind', if_true, if_false,
+      Bool.false_eq_true] <;> nocrash_finish
+
+/-- the token-derived modifiers never abort either -/
+theorem tokenMods_nocrash (now : Int) (o : SshOpts) : tokenMods now o ≠ .crash := by
+  unfold tokenMods tdUnix
+  cases h1 : o.va.isZero <;> cases h2 : o.vb.isZero <;>
+    simp only [Bool.not_true, Bool.not_false, safeU64_bind, pure_bind', if_true, if_false,
+      Bool.false_eq_true] <;> nocrash_finish
+
+theorem tokenMods_ok {now : Int} {o : SshOpts} {m : Option U64 × Option U64} (h : tokenMods now o = .ok m) :
+    m = (if o.va.isZero then none else some (BitVec.ofInt 64 (unixOf (relativeTime now o.va))),
+         if o.vb.isZero then none else some (BitVec.ofInt 64 (unixOf (relativeTime now o.vb)))) ∧
+    (o.va.isZero = false → 0 ≤ unixOf (relativeTime now o.va)) ∧
+    (o.vb.isZero = false → 0 ≤ unixOf (relativeTime now o.vb)) := by
+  unfold tokenMods tdUnix at h
+  cases h1 : o.va.isZero <;> cases h2 : o.vb.isZero <;>
+    simp only [h1, h2, Bool.not_true, Bool.not_false, safeU64_bind, pure_bind', if_true, if_false,
+      Bool.false_eq_true] at h ⊢
+  all_goals (repeat' (split at h)) <;> first | cases h | skip
+  all_goals (refine ⟨rfl, ?_, ?_⟩ <;> intro hh <;> first | omega | cases hh)
+
+theorem sshDefault_keeps {cl : Claimer} {now : Int} {o : SshOpts} {c c' : SshCert}
+    (h : sshDefault cl now o c = .ok c') :
+    (c.va ≠ 0#64 → c'.va = c.va) ∧ (c.vb ≠ 0#64 → c'.vb = c.vb) ∧ c'.ctype = c.ctype := by
+  unfold sshDefault at h
+  split at h
+  · cases h
+  by_cases hva : c.va = 0#64 <;> by_cases hvb : c.vb = 0#64 <;>
+    simp only [hva, hvb, castU64_bind, pure_bind', if_true, if_false] at h
+  all_goals (repeat' (split at h)) <;> first | cases h | skip
+  all_goals (refine ⟨?_, ?_, rfl⟩ <;> intro hh <;> first | exact absurd rfl hh | exact absurd hva hh | exact absurd hvb hh | skip)
+  all_goals simp_all
+
+/-- the start the limit modifier works with -/
+def limVa (now : Int) (c : SshCert) : U64 := if c.va = 0#64 then BitVec.ofInt 64 (unixOf (trunc now)) else c.va
+/-- the end it computes when none is set -/
+def limEnd (lna : GTime) (va : U64) (d : Int) : GTime :=
+  let t := (GTime.ofUnix (va.toNat : Int)).add d
+  if lna.before t then lna else t
+
+theorem sshLimit_ok {cl : Claimer} {lna : GTime} {now : Int} {o : SshOpts} {c c' : SshCert}
+    (hz : lna.isZero = false) (h : sshLimit cl lna now o c = .ok c') :
+    c'.ctype = c.ctype ∧ (c.va ≠ 0#64 → c'.va = c.va) ∧ (c.vb ≠ 0#64 → c'.vb = c.vb) ∧
+    ∃ d, cl.defSSH c.ctype = some d ∧ (limVa now c).toNat < 9223372036854775808 ∧
+      (GTime.ofUnix ((limVa now c).toNat : Int)).after lna = false ∧
+      (c.vb ≠ 0#64 → c.vb.toNat < 9223372036854775808 ∧ lna.before (GTime.ofUnix (c.vb.toNat : Int)) = false) ∧
+      (c.vb = 0#64 → 0 ≤ (limEnd lna (limVa now c) d).unix ∧ c'.vb = BitVec.ofInt 64 (limEnd lna (limVa now c) d).unix) := by
+  unfold sshLimit at h
+  rw [hz] at h
+  simp only [Bool.false_eq_true, if_false] at h
+  split at h
+  · cases h
+  rename_i d hd
+  unfold limVa limEnd
+  by_cases hva : c.va = 0#64 <;> by_cases hvb : c.vb = 0#64 <;>
+    simp only [hva, hvb, castU64_bind, castI64_bind, pure_bind', if_true, if_false] at h ⊢
+  all_goals (repeat' (split at h)) <;> first | cases h | skip
+  all_goals simp_all
+  all_goals omega
+
+theorem addSec_nonneg (e q : Int) (he1 : minI64 ≤ e) (he2 : e ≤ maxI64) (hq : 0 ≤ q) (hq2 : q ≤ maxI64) :
+    addSec e q = if e + q ≤ maxI64 then e + q else maxI64 := by
+  unfold addSec
+  simp only [decide_eq_decide]
+  unfold wrap64 minI64 maxI64 at *
+  split <;> split <;> omega
+
+theorem add_ns0 (t : GTime) (d : Int) (h : t.ns = 0) (hd : 0 ≤ d) :
+    t.add d = ⟨addSec t.sec (Int.tdiv d second), Int.tmod d second⟩ := by
+  have h3 := Int.tmod_nonneg second hd
+  have h4 : Int.tmod d second < second := Int.tmod_lt_of_pos d (by decide)
+  unfold GTime.add
+  simp only [h]
+  rw [if_neg (by omega), if_neg (by omega)]
+  simp
+
+/-- the end the limit modifier computes lies between 1970 and the credential's end -/
+theorem limEnd_le (lna : GTime) (va : U64) (d : Int)
+    (hl1 : unixToInternal ≤ lna.sec) (hl2 : lna.sec ≤ maxI64)
+    (hva : (va.toNat : Int) + unixToInternal ≤ maxI64) (hd : 0 ≤ d) (hd2 : d ≤ maxI64) :
+    0 ≤ (limEnd lna va d).unix ∧ (limEnd lna va d).unix ≤ lna.sec - unixToInternal := by
+  have h1 := Int.tdiv_nonneg hd (by decide : (0:Int) ≤ second)
+  have h2 : Int.tdiv d second * second + Int.tmod d second = d := Int.tdiv_mul_add_tmod d second
+  have h3 := Int.tmod_nonneg second hd
+  have hvn : (0:Int) ≤ va.toNat := Int.natCast_nonneg _
+  have hw : wrap64 ((va.toNat : Int) + unixToInternal) = (va.toNat : Int) + unixToInternal :=
+    wrap64_id _ (by unfold minI64 unixToInternal; omega) hva
+  unfold limEnd
+  simp only []
+  rw [add_ns0 _ _ rfl hd]
+  unfold GTime.ofUnix
+  simp only [hw]
+  rw [addSec_nonneg _ _ (by unfold minI64 unixToInternal; omega) hva h1 (by unfold second maxI64 at *; omega)]
+  generalize Int.tdiv d second = q at *
+  generalize Int.tmod d second = r at *
+  have key : ∀ e : Int, (va.toNat : Int) + unixToInternal ≤ e → e ≤ maxI64 →
+      0 ≤ (if lna.before ⟨e, r⟩ = true then lna else ⟨e, r⟩ : GTime).unix ∧
+      (if lna.before ⟨e, r⟩ = true then lna else ⟨e, r⟩ : GTime).unix ≤ lna.sec - unixToInternal := by
+    intro e he1 he2
+    by_cases hb : lna.before ⟨e, r⟩ = true
+    · rw [if_pos hb]
+      unfold GTime.unix
+      rw [wrap64_id _ (by unfold minI64 unixToInternal at *; omega) (by unfold maxI64 unixToInternal at *; omega)]
+      omega
+    · rw [if_neg hb]
+      unfold GTime.before at hb
+      simp only [Bool.or_eq_true, Bool.and_eq_true, decide_eq_true_eq, beq_iff_eq, not_or, not_and] at hb
+      unfold GTime.unix
+      simp only [] at hb ⊢
+      rw [wrap64_id _ (by unfold minI64 unixToInternal at *; omega) (by unfold maxI64 unixToInternal at *; omega)]
+      omega
+  by_cases hs : (va.toNat : Int) + unixToInternal + q ≤ maxI64
+  · rw [if_pos hs]; exact key _ (by omega) hs
+  · rw [if_neg hs]; exact key _ (by omega) (by omega)
+
+theorem sshModify_keeps {cl : Claimer} {m : SshMode} {now : Int} {o : SshOpts} {c c' : SshCert}
+    (h : sshModify cl m now o c = .ok c') :
+    (c.va ≠ 0#64 → c'.va = c.va) ∧ (c.vb ≠ 0#64 → c'.vb = c.vb) ∧ c'.ctype = c.ctype := by
+  cases m with
+  | dflt => exact sshDefault_keeps h
+  | limit lna =>
+    unfold sshModify at h
+    simp only [] at h
+    cases hz : lna.isZero with
+    | true =>
+      unfold sshLimit at h
+      rw [hz] at h
+      simp only [if_true] at h
+      exact sshDefault_keeps h
+    | false =>
+      obtain ⟨h1, h2, h3, _⟩ := sshLimit_ok hz h
+      exact ⟨h2, h3, h1⟩
+
+/-! ### the chain -/
+
+theorem sshSignWith_ok {cl : Claimer} {m : SshMode} {now : Int} {user : SshOpts} {mods : Option U64 × Option U64}
+    {c0 c : SshCert} (h : sshSignWith cl m now user mods c0 = .ok c) :
+    ∃ c1, modifyValidity now user c0 = .ok c1 ∧
+      sshModify cl m now user (applyMods mods c1) = .ok c ∧
+      sshValidityValid cl now user.backdate c = .ok () ∧ sshDefaultValid now c = .ok () := by
+  unfold sshSignWith at h
+  obtain ⟨c1, h1, h2⟩ := Out.bind_ok h
+  obtain ⟨c3, h3, h4⟩ := Out.bind_ok h2
+  obtain ⟨u, h5, h6⟩ := Out.bind_ok h4
+  obtain ⟨u', h7, h8⟩ := Out.bind_ok h6
+  cases h8
+  exact ⟨c1, h1, h3, h5, h7⟩
+
+/-- **ssh_bounds** (full strength since fix 1fe6db7).  Whatever the request options, the token
+    modifiers, the template's leftovers (any two 64-bit values) and the credential limit: an issued SSH
+    certificate has `validAfter ≤ validBefore`, does not end before the provisioner's clock, and its
+    lifetime in seconds, as an integer number of nanoseconds, lies in `[min, max + backdate]` for the
+    claims of its certificate type.  Hypotheses are about configuration only: `0 ≤ max`, `0 ≤ backdate`
+    (`AuthConfig.Validate`), both int64 values, clock below 2⁶³ s. -/
+theorem ssh_bounds (cl : Claimer) (m : SshMode) (now : Int) (user : SshOpts)
+    (mods : Option U64 × Option U64) (c0 c : SshCert) (mn mx : Int)
+    (hm : cl.minMaxSSH c.ctype = some (mn, mx))
+    (hmx : 0 ≤ mx) (hmx2 : mx ≤ maxI64) (hbd : 0 ≤ user.backdate) (hbd2 : user.backdate ≤ maxI64)
+    (hnow : unixOf now < 9223372036854775808)
+    (h : sshSignWith cl m now user mods c0 = .ok c) :
+    c.va.toNat ≤ c.vb.toNat ∧ unixOf now ≤ c.vb.toNat ∧
+    mn ≤ ((c.vb.toNat : Int) - c.va.toNat) * 1000000000 ∧
+    ((c.vb.toNat : Int) - c.va.toNat) * 1000000000 ≤ mx + user.backdate := by
+  obtain ⟨c1, _, _, h3, _⟩ := sshSignWith_ok h
+  exact sshValidityValid_bounds mn mx hm hmx hmx2 hbd hbd2 hnow h3
+
+/-- the certificate type always has claims when the chain accepts (so `ssh_bounds` is never vacuous) -/
+theorem ssh_bounds_has_claims (cl : Claimer) (m : SshMode) (now : Int) (user : SshOpts)
+    (mods : Option U64 × Option U64) (c0 c : SshCert) (h : sshSignWith cl m now user mods c0 = .ok c) :
+    ∃ mn mx, cl.minMaxSSH c.ctype = some (mn, mx) := by
+  obtain ⟨c1, _, _, h3, _⟩ := sshSignWith_ok h
+  obtain ⟨_, _, _, _, _, mn, mx, hm, _⟩ := sshValidityValid_ok h3
+  exact ⟨mn, mx, hm⟩
+
+def d6now : Int := 63900000000 * second
+/-- the D6 request: validAfter = now, validBefore = now + 18446744374 s (584.5 years) -/
+def d6user : SshOpts :=
+  { va := { t := d6now }, vb := { t := d6now + 18446744374 * second }, backdate := 60 * second }
+
+example : sshSignWith ⟨hardcoded, none⟩ .dflt d6now { backdate := 60 * second } (none, none) ⟨0#64, 0#64, userCert⟩ =
+    .ok ⟨1764403140#64, 1764460800#64, userCert⟩ := by decide
+
+/-- regression witness: the D6 request is refused by the code as it is now -/
+theorem d6_now_refused :
+    sshSignWith ⟨hardcoded, none⟩ .dflt d6now d6user (none, none) ⟨0#64, 0#64, userCert⟩ = .rej .tooLong := by
+  decide
+
+/-- **historic (D6, fixed by 1fe6db7).** Without the guard the validator accepted a 584.5-year
+    certificate under a 24 h maximum: the bound of `ssh_bounds` was false for the unguarded code. -/
+theorem ssh_bounds_unguarded_refuted :
+    ¬ ∀ (cl : Claimer) (now bd : Int) (c : SshCert) (mn mx : Int),
+      cl.minMaxSSH c.ctype = some (mn, mx) → 0 ≤ mx → mx ≤ maxI64 → 0 ≤ bd → bd ≤ maxI64 →
+      sshValidityValidUnguarded cl now bd c = .ok () →
+      ((c.vb.toNat : Int) - c.va.toNat) * 1000000000 ≤ mx + bd := by
+  intro h
+  have := h ⟨hardcoded, none⟩ d6now (60 * second) ⟨1764403200#64, 20211147574#64, userCert⟩ (300 * second) day
+    (by decide) (by decide) (by decide) (by decide) (by decide) (by decide)
+  revert this
+  decide
+
+/-- what the request (options, then token modifiers) asks for; `0` = nothing -/
+def wantVA (now : Int) (user : SshOpts) (mods : Option U64 × Option U64) (c0 : SshCert) : U64 :=
+  mods.1.getD (resolve now user.va c0.va)
+def wantVB (now : Int) (user : SshOpts) (mods : Option U64 × Option U64) (c0 : SshCert) : U64 :=
+  mods.2.getD (resolve now user.vb c0.vb)
+
+/-- **ssh_requested_exact.** A requested `validAfter` / `validBefore` (token modifier, else request
+    option resolved against the clock, else what the template left), when it is not the "unset" value
+    0, is the certificate's — no backdate, no clamping — or the request is refused; and a request
+    option that resolves to an instant before 1970 is always refused. -/
+theorem ssh_requested_exact (cl : Claimer) (m : SshMode) (now : Int) (user : SshOpts)
+    (mods : Option U64 × Option U64) (c0 c : SshCert)
+    (h : sshSignWith cl m now user mods c0 = .ok c) :
+    (wantVA now user mods c0 ≠ 0#64 → c.va = wantVA now user mods c0) ∧
+    (wantVB now user mods c0 ≠ 0#64 → c.vb = wantVB now user mods c0) ∧
+    (user.va.isZero = false → 0 ≤ unixOf (relativeTime now user.va)) ∧
+    (user.vb.isZero = false → 0 ≤ unixOf (relativeTime now user.vb)) := by
+  obtain ⟨c1, h1, h2, _, _⟩ := sshSignWith_ok h
+  obtain ⟨e1, e2, e3⟩ := modifyValidity_ok h1
+  obtain ⟨k1, k2, _⟩ := sshModify_keeps h2
+  subst e1
+  unfold wantVA wantVB
+  unfold applyMods at k1 k2
+  exact ⟨k1, k2, e2, e3⟩
+
+example : sshSignWith ⟨hardcoded, none⟩ .dflt d6now
+    { va := { d := 60 * second }, vb := { d := 3660 * second }, backdate := 60 * second } (none, none)
+    ⟨0#64, 0#64, userCert⟩ = .ok ⟨1764403260#64, 1764406860#64, userCert⟩ := by decide
+
+/-- bound below which `time.Unix(x, 0)` does not wrap: every instant a request can express
+    (RFC 3339 up to year 9999, plus any `time.Duration`) is far below it -/
+def reach (x : U64) : Prop := (x.toNat : Int) + unixToInternal ≤ maxI64
+
+/-- **ssh_limit.** With `sshLimitDuration` bound to a credential (X5C, Nebula) an issued SSH
+    certificate never outlives the credential: `validBefore ≤ credential.NotAfter.Unix()`. -/
+theorem ssh_limit (cl : Claimer) (lna : GTime) (now : Int) (user : SshOpts)
+    (mods : Option U64 × Option U64) (c0 c : SshCert)
+    (hz : lna.isZero = false) (hl1 : unixToInternal ≤ lna.sec) (hl2 : lna.sec ≤ maxI64)
+    (hd : ∀ d, cl.defSSH c0.ctype = some d → 0 ≤ d ∧ d ≤ maxI64)
+    (hnow : 0 ≤ unixOf (trunc now) ∧ unixOf (trunc now) + unixToInternal ≤ maxI64)
+    (hreach : reach (wantVA now user mods c0)) (hreachB : reach (wantVB now user mods c0))
+    (h : sshSignWith cl (.limit lna) now user mods c0 = .ok c) :
+    (c.vb.toNat : Int) ≤ lna.sec - unixToInternal := by
+  unfold reach at hreach hreachB
+  obtain ⟨c1, h1, h2, _, _⟩ := sshSignWith_ok h
+  obtain ⟨e1, _, _⟩ := modifyValidity_ok h1
+  subst e1
+  unfold sshModify at h2
+  simp only [] at h2
+  obtain ⟨_, _, k3, d, kd, k4, k5, k6, k7⟩ := sshLimit_ok hz h2
+  unfold applyMods at k3 k4 k5 k6 k7 kd
+  simp only [] at k3 k4 k5 k6 k7 kd
+  obtain ⟨hd1, hd2⟩ := hd d kd
+  by_cases hvb : mods.2.getD (resolve now user.vb c0.vb) = 0#64
+  · obtain ⟨k8, k9⟩ := k7 hvb
+    have hva : ((limVa now ⟨mods.1.getD (resolve now user.va c0.va), mods.2.getD (resolve now user.vb c0.vb), c0.ctype⟩).toNat : Int)
+        + unixToInternal ≤ maxI64 := by
+      unfold limVa
+      simp only []
+      split
+      · rw [toNat_ofInt_small _ hnow.1 (by unfold maxI64 unixToInternal at *; omega)]; exact hnow.2
+      · exact hreach
+    have := limEnd_le lna _ d hl1 hl2 hva hd1 hd2
+    rw [k9, toNat_ofInt_small _ k8 (by unfold maxI64 unixToInternal at *; omega)]
+    exact this.2
+  · obtain ⟨k8, k9⟩ := k6 hvb
+    rw [k3 hvb]
+    unfold GTime.before GTime.ofUnix at k9
+    simp only [Bool.or_eq_false_iff, decide_eq_false_iff_not] at k9
+    have hw := k9.1
+    unfold wantVB at hreachB
+    unfold wrap64 unixToInternal maxI64 at *
+    omega
+
+example : sshSignWith ⟨hardcoded, none⟩ (.limit ⟨63900003600, 0⟩) d6now { backdate := 60 * second } (none, none)
+    ⟨0#64, 0#64, userCert⟩ = .ok ⟨1764403140#64, 1764406800#64, userCert⟩ := by decide
+
+/-! ### never aborts -/
+
+theorem reach_ofInt (x : Int) (h0 : 0 ≤ x) (h1 : x + unixToInternal ≤ maxI64) : reach (BitVec.ofInt 64 x) := by
+  unfold reach
+  rw [toNat_ofInt_small x h0 (by unfold maxI64 unixToInternal at *; omega)]
+  exact h1
+
+theorem sshDefault_nocrash (cl : Claimer) (now : Int) (o : SshOpts) (c : SshCert)
+    (hbd : 0 ≤ o.backdate) (hnow : 0 ≤ unixOf (trunc now))
+    (hd : ∀ d, cl.defSSH c.ctype = some d → 0 ≤ d) : sshDefault cl now o c ≠ .crash := by
+  unfold sshDefault
+  split
+  · intro hh; cases hh
+  rename_i d hdd
+  have h1 := hd d hdd
+  have h2 := Int.tdiv_nonneg h1 (by decide : (0:Int) ≤ second)
+  have h3 := Int.tdiv_nonneg hbd (by decide : (0:Int) ≤ second)
+  by_cases hva : c.va = 0#64 <;> by_cases hvb : c.vb = 0#64 <;>
+    simp only [hva, hvb, castU64_bind, pure_bind', if_true, if_false] <;> nocrash_finish
+
+theorem sshDefault_post {cl : Claimer} {now : Int} {o : SshOpts} {c c' : SshCert}
+    (hnow : 0 ≤ unixOf (trunc now) ∧ unixOf (trunc now) + unixToInternal ≤ maxI64)
+    (hd : ∀ d, cl.defSSH c.ctype = some d → 0 ≤ d ∧ d ≤ maxI64)
+    (hva : reach c.va) (hvb : reach c.vb)
+    (h : sshDefault cl now o c = .ok c') : c'.vb.toNat < 9223372036854775808 := by
+  unfold reach at hva hvb
+  unfold sshDefault at h
+  split at h
+  · cases h
+  rename_i d hdd
+  obtain ⟨h0, h1⟩ := hd d hdd
+  by_cases hz : c.vb = 0#64
+  · by_cases hza : c.va = 0#64 <;>
+      simp only [hz, hza, castU64_bind, pure_bind', if_true, if_false] at h
+    all_goals (repeat' (split at h)) <;> first | cases h | skip
+    all_goals simp only []
+    all_goals rw [BitVec.toNat_add]
+    all_goals
+      have hq : Int.tdiv d second ≤ 9223372036 := by
+        have : Int.tdiv d second * second + Int.tmod d second = d := Int.tdiv_mul_add_tmod d second
+        have := Int.tmod_nonneg second h0
+        have := Int.tdiv_nonneg h0 (by decide : (0:Int) ≤ second)
+        unfold second maxI64 at *; omega
+    all_goals
+      have e1 := toNat_ofInt_small (unixOf (trunc now)) hnow.1 (by unfold maxI64 unixToInternal at *; omega)
+      have e2 := toNat_ofInt_small (Int.tdiv d second) (by omega) (by omega)
+      unfold maxI64 unixToInternal at *
+      omega
+  · rw [(sshDefault_keeps (by unfold sshDefault; rw [hdd]; exact h)).2.1 hz]
+    unfold maxI64 unixToInternal at *
+    omega
+
+theorem sshLimit_nocrash (cl : Claimer) (lna : GTime) (now : Int) (o : SshOpts) (c : SshCert)
+    (hz : lna.isZero = false) (hl1 : unixToInternal ≤ lna.sec) (hl2 : lna.sec ≤ maxI64)
+    (hbd : 0 ≤ o.backdate) (hnow : 0 ≤ unixOf (trunc now) ∧ unixOf (trunc now) + unixToInternal ≤ maxI64)
+    (hd : ∀ d, cl.defSSH c.ctype = some d → 0 ≤ d ∧ d ≤ maxI64)
+    (hva : reach c.va) (hvb : reach c.vb) : sshLimit cl lna now o c ≠ .crash := by
+  unfold reach at hva hvb
+  unfold sshLimit
+  rw [hz]
+  simp only [Bool.false_eq_true, if_false]
+  split
+  · intro hh; cases hh
+  rename_i d hdd
+  obtain ⟨h0, h1⟩ := hd d hdd
+  have h3 := Int.tdiv_nonneg hbd (by decide : (0:Int) ≤ second)
+  have e1 := toNat_ofInt_small (unixOf (trunc now)) hnow.1 (by unfold maxI64 unixToInternal at *; omega)
+  have hlv : reach (limVa now c) := by
+    unfold limVa reach; split
+    · rw [e1]; exact hnow.2
+    · exact hva
+  have hle := (limEnd_le lna (limVa now c) d hl1 hl2 hlv h0 h1).1
+  unfold limVa limEnd at hle
+  have := c.va.isLt
+  have := c.vb.isLt
+  by_cases hza : c.va = 0#64 <;> by_cases hzb : c.vb = 0#64 <;>
+    simp only [hza, hzb, castU64_bind, castI64_bind, pure_bind', if_true, if_false] at hle ⊢ <;>
+    unfold maxI64 unixToInternal at * <;> nocrash_finish
+
+theorem sshLimit_post {cl : Claimer} {lna : GTime} {now : Int} {o : SshOpts} {c c' : SshCert}
+    (hz : lna.isZero = false) (hl1 : unixToInternal ≤ lna.sec) (hl2 : lna.sec ≤ maxI64)
+    (hnow : 0 ≤ unixOf (trunc now) ∧ unixOf (trunc now) + unixToInternal ≤ maxI64)
+    (hd : ∀ d, cl.defSSH c.ctype = some d → 0 ≤ d ∧ d ≤ maxI64)
+    (hva : reach c.va)
+    (h : sshLimit cl lna now o c = .ok c') : c'.vb.toNat < 9223372036854775808 := by
+  obtain ⟨_, _, k3, d, kd, _, _, k6, k7⟩ := sshLimit_ok hz h
+  obtain ⟨h0, h1⟩ := hd d kd
+  have e1 := toNat_ofInt_small (unixOf (trunc now)) hnow.1 (by unfold maxI64 unixToInternal at *; omega)
+  have hlv : reach (limVa now c) := by
+    unfold limVa reach; split
+    · rw [e1]; exact hnow.2
+    · exact hva
+  have hle := limEnd_le lna (limVa now c) d hl1 hl2 hlv h0 h1
+  by_cases hzb : c.vb = 0#64
+  · obtain ⟨k8, k9⟩ := k7 hzb
+    have := toNat_ofInt_small _ k8 (by unfold maxI64 unixToInternal at *; omega)
+    rw [k9]
+    unfold maxI64 unixToInternal at *
+    omega
+  · rw [k3 hzb]
+    exact (k6 hzb).1
+
+theorem sshValidityValid_nocrash (cl : Claimer) (now bd : Int) (c : SshCert) (hnow : 0 ≤ unixOf now) :
+    sshValidityValid cl now bd c ≠ .crash := by
+  unfold sshValidityValid
+  simp only [castU64_bind, castI64_bind]
+  nocrash_finish
+
+theorem sshDefaultValid_nocrash (now : Int) (c : SshCert) (hnow : 0 ≤ unixOf now) :
+    sshDefaultValid now c ≠ .crash := by
+  unfold sshDefaultValid
+  simp only [castU64_bind]
+  nocrash_finish
+
+/-- a requested instant is one Go's `time.Time` can hold without `time.Unix` wrapping — every RFC 3339
+    instant (years 0000–9999) and every `now + time.Duration` is.  No lower bound: instants before
+    1970, the zero time, negative durations are all included. -/
+def tdRepresentable (now : Int) (x : TD) : Prop := unixOf (relativeTime now x) + unixToInternal ≤ maxI64
+
+/-- the credential end is absent, or a sane instant from 1970 on -/
+def modeFine : SshMode → Prop
+  | .dflt => True
+  | .limit lna => lna.isZero = true ∨ (unixToInternal ≤ lna.sec ∧ lna.sec ≤ maxI64)
+
+theorem reach_resolve (now : Int) (x : TD) (d : U64) (hx : tdRepresentable now x)
+    (hnn : x.isZero = false → 0 ≤ unixOf (relativeTime now x)) (hd : reach d) : reach (resolve now x d) := by
+  unfold resolve
+  cases hz : x.isZero with
+  | true => exact hd
+  | false => exact reach_ofInt _ (hnn hz) hx
+
+/-- **ssh_no_crash** (full strength since fix fffcedb).  For *every* request — absolute or relative
+    `validAfter`/`validBefore` in the request and in the token, zero, negative, before 1970, far future —
+    the SSH sign chain of a JWK / X5C / Nebula / OIDC … provisioner returns a certificate or an error;
+    it never aborts.  Hypotheses are about the deployment, not the request: the clock is after 1970,
+    `0 ≤ backdate` (`AuthConfig.Validate`), the default SSH duration of the certificate's type is a
+    non-negative int64 (NOT checked by `Claimer.Validate`, see `claims_ssh_unchecked`), the credential's
+    end (if any) is a sane instant, and the template left `validAfter`/`validBefore` unset or below
+    2⁶³ − 62135596800 (the default templates leave 0). -/
+theorem ssh_no_crash (cl : Claimer) (m : SshMode) (now : Int) (user tok : SshOpts) (c0 : SshCert)
+    (hnow : 0 ≤ unixOf now ∧ unixOf now + unixToInternal ≤ maxI64)
+    (hua : tdRepresentable now user.va) (hub : tdRepresentable now user.vb)
+    (hta : tdRepresentable now tok.va) (htb : tdRepresentable now tok.vb)
+    (hbd : 0 ≤ user.backdate)
+    (hd : ∀ d, cl.defSSH c0.ctype = some d → 0 ≤ d ∧ d ≤ maxI64)
+    (hm : modeFine m) (hc0 : reach c0.va ∧ reach c0.vb) :
+    sshSign cl m now user tok c0 ≠ .crash := by
+  have hnow' : 0 ≤ unixOf (trunc now) ∧ unixOf (trunc now) + unixToInternal ≤ maxI64 := by
+    rw [unixOf_trunc]; exact hnow
+  unfold sshSign
+  apply Out.bind_not_crash (tokenMods_nocrash now tok)
+  intro mods hmods
+  obtain ⟨hme, hma, hmb⟩ := tokenMods_ok hmods
+  unfold sshSignWith
+  apply Out.bind_not_crash (modifyValidity_nocrash now user c0)
+  intro c1 hc1
+  obtain ⟨e1, hna, hnb⟩ := modifyValidity_ok hc1
+  have hct : (applyMods mods c1).ctype = c0.ctype := by rw [e1]; rfl
+  have hra : reach (applyMods mods c1).va := by
+    rw [e1, hme]; unfold applyMods; simp only []
+    cases hz : tok.va.isZero with
+    | true => exact reach_resolve now _ _ hua hna hc0.1
+    | false => exact reach_ofInt _ (hma hz) hta
+  have hrb : reach (applyMods mods c1).vb := by
+    rw [e1, hme]; unfold applyMods; simp only []
+    cases hz : tok.vb.isZero with
+    | true => exact reach_resolve now _ _ hub hnb hc0.2
+    | false => exact reach_ofInt _ (hmb hz) htb
+  have hd' : ∀ d, cl.defSSH (applyMods mods c1).ctype = some d → 0 ≤ d ∧ d ≤ maxI64 := by rw [hct]; exact hd
+  have hmod : sshModify cl m now user (applyMods mods c1) ≠ .crash := by
+    cases m with
+    | dflt => exact sshDefault_nocrash cl now user _ hbd hnow'.1 (fun d h => (hd' d h).1)
+    | limit lna =>
+      unfold sshModify
+      simp only []
+      cases hz : lna.isZero with
+      | true =>
+        have : sshLimit cl lna now user (applyMods mods c1) = sshDefault cl now user (applyMods mods c1) := by
+          unfold sshLimit; rw [hz]; rfl
+        rw [this]
+        exact sshDefault_nocrash cl now user _ hbd hnow'.1 (fun d h => (hd' d h).1)
+      | false =>
+        have hl : unixToInternal ≤ lna.sec ∧ lna.sec ≤ maxI64 := by
+          cases hm with
+          | inl h => rw [hz] at h; cases h
+          | inr h => exact h
+        exact sshLimit_nocrash cl lna now user _ hz hl.1 hl.2 hbd hnow' hd' hra hrb
+  apply Out.bind_not_crash hmod
+  intro c3 _
+  apply Out.bind_not_crash (sshValidityValid_nocrash cl now user.backdate c3 hnow.1)
+  intro _ _
+  apply Out.bind_not_crash (sshDefaultValid_nocrash now c3 hnow.1)
+  intro _ _ hh
+  cases hh
+
+/-- the hypotheses of `ssh_no_crash` are met by the D7 request (validAfter = 1960-01-01), which is now
+    refused with 400 … -/
+theorem d7_now_refused :
+    sshSign ⟨hardcoded, none⟩ .dflt d6now { va := { t := 61819977600 * second }, backdate := 60 * second } {}
+      ⟨0#64, 0#64, userCert⟩ = .rej .mvEpoch := by decide
+
+/-- **historic (D7, fixed by fffcedb).** … whereas the unguarded `ModifyValidity` aborted on it. -/
+theorem ssh_no_crash_unguarded_refuted :
+    ¬ ∀ (now : Int) (o : SshOpts) (c : SshCert), modifyValidityUnguarded now o c ≠ .crash := by
+  intro h
+  exact h d6now { va := { t := 61819977600 * second } } ⟨0#64, 0#64, userCert⟩ (by decide)
+
+/-- **ssh_renew_same_duration.** `renewSSH` / `rekeySSH` issue a certificate that starts at the
+    authority's clock minus the backdate and lasts exactly as many seconds as the one it replaces
+    (for every certificate the validator can have issued: lifetime ≤ 9223372036 s). -/
+theorem ssh_renew_same_duration (anow bd : Int) (old c : SshCert)
+    (hle : old.va.toNat ≤ old.vb.toNat) (hsmall : old.vb.toNat - old.va.toNat ≤ 9223372036)
+    (hbd : 0 ≤ bd) (hbd2 : bd ≤ maxI64) (hnow : unixOf anow < 4611686018427387904)
+    (h : sshRenewDates anow bd old = .ok c) :
+    (c.vb.toNat : Int) - c.va.toNat = (old.vb.toNat : Int) - old.va.toNat ∧
+    (c.va.toNat : Int) = unixOf (anow - bd) ∧ c.ctype = old.ctype := by
+  unfold sshRenewDates at h
+  simp only [castU64_bind, castI64_bind] at h
+  have hs : ((old.vb - old.va).toNat : Int) = (old.vb.toNat : Int) - old.va.toNat := by
+    rw [BitVec.toNat_sub]
+    have := old.va.isLt
+    have := old.vb.isLt
+    omega
+  rw [hs, secsToDur_small _ (by omega) (by omega), wrap64_neg _ hbd hbd2,
+    wrap64_id _ (by unfold minI64 maxI64 at *; omega) (by unfold maxI64 at *; omega)] at h
+  split at h
+  · cases h
+  split at h
+  · cases h
+  split at h
+  · cases h
+  split at h
+  · cases h
+  cases h
+  simp only []
+  unfold unixOf second unixToInternal maxI64 at *
+  rw [toNat_ofInt_small _ (by omega) (by omega), toNat_ofInt_small _ (by omega) (by omega)]
+  refine ⟨by omega, by omega, trivial⟩
+
+example : sshRenewDates (d6now + 5) (60 * second) ⟨1700000000#64, 1700057600#64, userCert⟩ =
+    .ok ⟨1764403140#64, 1764460740#64, userCert⟩ := by decide
 
 end Verif.Validity
